@@ -170,6 +170,16 @@ def explore(ctx, scale=1.0):
     for i in range(int((3000 if ctx.thorough else 150) * scale)):
         b = gen.gen_block(rng, rng.choice(gen.BLOCK_TYPES + ["map", "layer", "class"]), depth=rng.choice([1, 2, 3]), max_items=8)
         docs.append((gen.render(b, gen.Layout(rng, plain=rng.random() < .5)), "random"))
+    # documents that are all expression: C10's random operator trees (mixed AND / OR / NOT nesting three and more levels deep, redundant
+    # parentheses, comparisons, arithmetic, regular expressions, strings that contain operator words) — what is stored must survive the loop
+    from props import C10
+    for i in range(int((1500 if ctx.thorough else 200) * scale)):
+        t = C10.rand_tree(rng, rng.randint(3, 10))
+        src = "(" + " ".join(C10.render(rng, t)) + ")"
+        docs.append((rng.choice(["CLASS\n  EXPRESSION %s\nEND", "LAYER\n  FILTER %s\nEND", "CLASS\n  TEXT %s\nEND"]) % src, "expression"))
+    for e in ('((([a] = 1 AND [b] = 2) OR [c] = 3) AND [d] = 4)', '(("[s]" = "salt AND pepper" OR [c] = 3) AND [d] = 4)', '((([a] = 1 OR [b] = 2) AND [c] = 3) OR [d] = 4)',
+              '(NOT ([a] = 1 AND [b] = 2) OR [c] = 3)', '(([a] = 1 AND ([b] = 2 OR [c] = 3)) AND [d] = 4)'):
+        docs.append(("CLASS\n  EXPRESSION %s\nEND" % e, "expression"))
     P = trees.parser(False, False)
     pp_cases, treqs, tkeep, creqs, ckeep, rl_cases = [], [], [], [], [], []
     for idx, (text, kind) in enumerate(docs):
